@@ -155,6 +155,7 @@ def c02(tier):
     jobs = [Job("h_c02::delivery", c, dict(S2), budget_s=4000, validate=30) for c in combos]
     jobs.append(Job("h_c02::dedup_across_packs", (), dict(S2), budget_s=600, validate=1))
     jobs.append(Job("h_c02::own_pack_required", (), dict(S2), budget_s=600, validate=10))
+    jobs.append(Job("h_c02::dedup_update", (), dict(S2), budget_s=600, validate=1))
     return dict(jobs=jobs, bounds={"own pack": "a block whose only object is also stored in another replica's pack (symbolic value): visible exactly when block and its own pack are both delivered, either order", "dedup scenario": "a parentless block whose pack omits an object that is stored only in the pack of another, held-back block (one concrete scenario)", "history 0": "c1 <- c2 (2 blocks + 2 packs): all 24 delivery orders of the 4 files, second document among k orders with a symbolic value",
                                    "history 1": "c1 <- cA, c1 <- cB, {cA,cB} <- cM with c1 pre-delivered: all 720 delivery orders of the remaining 6 files",
                                    "after every delivered file": "refresh; state == recorded state of exactly the causally complete blocks; state == Melda::new on the same storage",
@@ -265,6 +266,8 @@ def c12(tier):
     jobs = [Job("h_c12::maintenance", c, dict(S2), budget_s=3000, validate=30) for c in combos]
     # the same with object / descriptor caches of capacity 1: after commit the values come from storage through the pack index
     jobs.append(Job("h_c12::maintenance", (10, 0, 1), dict(S2), budget_s=3000, validate=20))
+    # the removal of an array wins on its descriptor while the winning owner still references the array
+    jobs.append(Job("h_c12::dropped_array_wins", (), dict(S2), budget_s=3000, validate=20))
     return dict(jobs=jobs, bounds={"state": "two replicas after concurrent array edits (k versions each, incl. inserts at the same position, moves between arrays, removals) and exchange: array and object conflicts pending",
                                    "operations": "meld without refresh; idle refresh + reload; stage_full_snapshot (+ commit, reopen); user edit + commit with automatic array resolution (+ reopen); idle commit",
                                    "combos [versions, symbolic ids of inserted elements]": [list(c) for c in combos]},
@@ -302,14 +305,15 @@ def c07(tier):
 
 def c08(tier):
     jobs = [Job("h_c08::commit_with_array_conflict", (6, 0), dict(S2), budget_s=3000, validate=30, native_timeout=10)]
-    for kind in range(7):
+    for kind in range(8):
         jobs.append(Job("h_c08::all_operations", (kind, 4 if tier == "quick" else 8), dict(S2), budget_s=3000, validate=10, native_timeout=10))
     if tier != "quick":
         jobs.append(Job("h_c08::commit_with_array_conflict", (10, 0), dict(S2), budget_s=6000, validate=30, native_timeout=10))
     return dict(jobs=jobs, bounds={"scenario": "base document, two replicas, one concurrent edit each (documents chosen among 6 / 10 element orders), exchange, further edit, commit, then stage / snapshot / unstage / refresh / reload / getters",
                                    "all_operations": "every public operation (read with and without root, get_value / get_winner / get_conflicting / get_parent_revision per object, in_conflict, has_staging, get_anchors, get_delta, "
-                                                     "stage, meld, stage_full_snapshot, replay_stage, reload, update, delete_object, commit, unstage, refresh) in seven kinds of state: empty, staged (with deletions), committed with a "
-                                                     "deleted object, object + array conflicts pending, the same with staged resolutions, after time travel, array dropped on one replica and edited on the other"},
+                                                     "stage, meld, stage_full_snapshot, replay_stage, reload, update, delete_object, commit, unstage, refresh) in eight kinds of state: empty, staged (with deletions), committed with a "
+                                                     "deleted object, object + array conflicts pending, the same with staged resolutions, after time travel, array dropped on one replica and edited on the other, "
+                                                     "a block held back in storage across two refreshes"},
                 assumptions=["single client thread; worker-pool sizes and real rayon interleavings are not modelled (sequentialised par_iter)",
                              "a lock re-acquired by the thread that holds it is reported as non-termination (std Mutex/RwLock are not re-entrant)"],
                 note="melda.rs operations from MIR with the lock model")
